@@ -191,4 +191,15 @@ struct AppendCtl
    }
 };
 void use_append_ctl(AppendCtl& a, const AppendCtl& b) { a.add(b); }
+
+// R19.7 (third shape): a descending loop over all entries that stops before index 0 (the shape of seeded change C07-4)
+int descending_skips_zero(const int* a, int size)
+{
+   int sum = 0;
+
+   for(int j = size - 1; j > 0; --j)
+      sum += a[j];
+
+   return sum;
+}
 }
